@@ -38,6 +38,7 @@ func pickScript(target Protocol, unaryKind bool, svcComp bool) (*respScript, int
 				return nil, kind
 			}
 			s.trailersOnly = true
+			s.declareLen = verifChoose("declareLen", 2) == 1 // "Content-Length: 0" next to the trailers-only status
 		}
 	case 3:
 		return nil, kind
@@ -49,14 +50,18 @@ var bareStatuses = [10]int{400, 401, 403, 404, 429, 500, 502, 503, 504, 418}
 
 // bareBackend answers with a plain HTTP error (no RPC status, non-RPC body).
 type bareBackend struct {
-	status int
-	calls  int
+	status     int
+	calls      int
+	declareLen bool // the error page declares its Content-Length (as net/http and proxies do)
 }
 
 func (b *bareBackend) ServeHTTP(w http.ResponseWriter, r *http.Request) {
 	b.calls++
 	readAllSized(r.Body, 16, 100)
 	w.Header().Set("Content-Type", "text/plain")
+	if b.declareLen {
+		w.Header().Set("Content-Length", "4")
+	}
 	w.WriteHeader(b.status)
 	w.Write([]byte("oops"))
 }
@@ -85,7 +90,7 @@ func hC03Pipe() {
 	reqMsgs := []wireMsg{{abstract: []byte{'q'}}} // the request side is fixed here (C01/C02 vary it)
 	var bare *bareBackend
 	if kind == 4 {
-		bare = &bareBackend{status: bareStatuses[verifChoose("status", len(bareStatuses))]}
+		bare = &bareBackend{status: bareStatuses[verifChoose("status", len(bareStatuses))], declareLen: verifChoose("declareLen", 2) == 1}
 		p.tr.methods[pipePath].handler = bare
 	}
 	p.serve(reqMsgs)
